@@ -936,24 +936,42 @@ theorem step_inv {s : Sys} {op : Op} (h : Inv s) (hop : OpOk op) : Inv (step s o
     intro w hw
     rcases mem_modAt hw with h' | ⟨w0, hw0, rfl⟩
     · exact hws w h'
-    · refine ⟨(hws w0 hw0).1, ?_⟩
-      intro d hd
-      simp only [Option.some.injEq] at hd
-      exact load_wf hfile hd
+    · split
+      · exact hws w0 hw0
+      · refine ⟨(hws w0 hw0).1, ?_⟩
+        intro d hd
+        simp only [Option.some.injEq] at hd
+        exact load_wf hfile hd
   | flushCommit i wc ch =>
     simp only [step]
     split
     · rename_i hi
+      simp only [Bool.and_eq_true, decide_eq_true_eq] at hi
       refine ⟨?_, ?_⟩
       · intro w hw
         rcases mem_modAt hw with h' | ⟨w0, _, rfl⟩
         · exact hws w h'
-        · exact ⟨wf_nil, by intro d hd; simp [Writer.empty] at hd⟩
+        · exact ⟨wf_nil, by intro d hd; simp at hd⟩
       · intro c hc
         simp only [File.data.injEq] at hc
         subst hc
-        have := hws _ (getW_mem hi)
+        have := hws _ (getW_mem hi.1)
         exact commitData_wf this.1 this.2
+    · exact ⟨hws, hfile⟩
+  | rebuild i first disabled =>
+    simp only [step]
+    split
+    · refine ⟨?_, ?_⟩
+      · intro w hw
+        rcases mem_modAt hw with h' | ⟨w0, _, rfl⟩
+        · exact hws w h'
+        · exact ⟨wf_nil, by intro d hd; simp at hd⟩
+      · intro c hc
+        split at hc
+        · simp only [File.data.injEq] at hc
+          subst hc
+          exact wf_nil
+        · exact hfile c hc
     · exact ⟨hws, hfile⟩
   | write i =>
     simp only [step]
@@ -1022,8 +1040,15 @@ theorem step_bounded {s : Sys} (op : Op) (h : BoundedSys s) : BoundedSys (step s
   | flushLoad i ch =>
     rcases mem_modAt hw with h' | ⟨w0, hw0, rfl⟩
     · exact h w h'
-    · exact h w0 hw0
+    · split <;> exact h w0 hw0
   | flushCommit i wc ch =>
+    simp only [step] at hw
+    split at hw
+    · rcases mem_modAt hw with h' | ⟨w0, _, rfl⟩
+      · exact h w h'
+      · exact bounded_nil _
+    · exact h w hw
+  | rebuild i first disabled =>
     simp only [step] at hw
     split at hw
     · rcases mem_modAt hw with h' | ⟨w0, _, rfl⟩
